@@ -51,7 +51,9 @@ VARIABLES cfg,
           cur,                  \* usize of the container C is about to hand over
           ctmp, utmp,           \* locals: C's tellp() result, U's tellp() result
           objCount, uncSize,    \* currentObjectCount, currentUncompressedFileSize
-          pc, blk,              \* per thread: label / condition variable waited on ("" = none)
+          pc, blk,              \* per thread: label / condition variable parked on ("" = none)
+          wk,                   \* threads that were notified while parked and have not yet re-evaluated
+                                \* their predicate (they are inside condition_variable::wait)
           tmp4,                 \* U: the 4 bytes of ObjectHeaderBase::read's tmp, as classes
           d,                    \* U: index of the descriptor being processed (0 = none)
           opi,                  \* U: next codec operation
@@ -63,9 +65,9 @@ VARIABLES cfg,
           act                   \* ghost: thread of the last step
 
 vars == <<cfg, uf, oq, uRun, cRun, cfOpen, cfBad, ci, cur, ctmp, utmp, objCount, uncSize,
-          pc, blk, tmp4, d, opi, fix, nread, delivered, aret, freed, stale, act>>
+          pc, blk, wk, tmp4, d, opi, fix, nread, delivered, aret, freed, stale, act>>
 View == <<cfg, uf, oq, uRun, cRun, cfOpen, cfBad, ci, cur, ctmp, utmp, objCount, uncSize,
-          pc, blk, tmp4, d, opi, fix, nread, delivered, aret, freed, stale>>
+          pc, blk, wk, tmp4, d, opi, fix, nread, delivered, aret, freed, stale>>
 
 Threads == {"A", "U", "C"}
 StatSize == 144           \* FileStatistics::statisticsSize
@@ -79,7 +81,7 @@ Init == /\ cfg \in Configs
         /\ ci = 0 /\ cur = 0 /\ ctmp = 0 /\ utmp = 0
         /\ objCount = 0 /\ uncSize = 0
         /\ pc = [t \in Threads |-> IF t = "A" THEN "start" ELSE "none"]
-        /\ blk = [t \in Threads |-> ""]
+        /\ blk = [t \in Threads |-> ""] /\ wk = {}
         /\ tmp4 = <<"x", "x", "x", "x">>
         /\ d = 0 /\ opi = 0 /\ fix = 0
         /\ nread = 0 /\ delivered = <<>> /\ aret = -1
@@ -90,8 +92,13 @@ Init == /\ cfg \in Configs
 Ready(t, l) == pc[t] = l /\ blk[t] = ""
 Goto(t, l) == pc' = [pc EXCEPT ![t] = l]
 Step(t) == act' = [op |-> t, arg |-> 0] /\ UNCHANGED cfg
-Notify(b, cvs) == [t \in Threads |-> IF b[t] \in cvs THEN "" ELSE b[t]]
-Block(t, cv) == blk' = [blk EXCEPT ![t] = cv]
+(* the acting thread leaves a critical section having notified the condition variables cvs, and is
+   afterwards parked on selfcv ("" = not parked) *)
+Sync(self, cvs, selfcv) ==
+  /\ blk' = [t \in Threads |-> IF t = self THEN selfcv ELSE IF blk[t] \in cvs THEN "" ELSE blk[t]]
+  /\ wk' = (wk \ {self}) \cup {t \in Threads \ {self} : blk[t] \in cvs}
+Block(t, cv) == Sync(t, {}, cv)
+Quiet == UNCHANGED <<blk, wk, wk>>
 
 UVars == <<tmp4, d, opi, fix, utmp>>
 CVars == <<ci, cur, ctmp, cfBad>>
@@ -111,21 +118,21 @@ ClsAt(x) == IF x >= 0 /\ x < Len(cfg.cls) THEN cfg.cls[x + 1] ELSE "x"
 (* open(): fstream opened, statistics header read (currentUncompressedFileSize += statisticsSize) *)
 A_Start == /\ Ready("A", "start") /\ Step("A") /\ Goto("A", "setU")
            /\ cfOpen' = TRUE /\ uncSize' = uncSize + StatSize
-           /\ UNCHANGED <<uf, oq, Flags, CVars, objCount, blk, UVars, AVars, stale>>
+           /\ UNCHANGED <<uf, oq, Flags, CVars, objCount, blk, wk, UVars, AVars, stale>>
 A_SetU == /\ Ready("A", "setU") /\ Step("A")
           /\ uRun' = TRUE /\ Goto("A", "setC")
-          /\ UNCHANGED <<uf, oq, cRun, cfOpen, CVars, Stats, blk, UVars, AVars, stale>>
+          /\ UNCHANGED <<uf, oq, cRun, cfOpen, CVars, Stats, blk, wk, UVars, AVars, stale>>
 AfterOpen == IF cfg.nreads = 0 THEN "clrC" ELSE "read"
 A_SetC == /\ Ready("A", "setC") /\ Step("A")
           /\ cRun' = TRUE
           /\ pc' = [pc EXCEPT !["A"] = AfterOpen, !["U"] = "start", !["C"] = "start"]   \* both threads created
-          /\ UNCHANGED <<uf, oq, uRun, cfOpen, CVars, Stats, blk, UVars, AVars, stale>>
+          /\ UNCHANGED <<uf, oq, uRun, cfOpen, CVars, Stats, blk, wk, UVars, AVars, stale>>
 AfterRead(ret, n) == IF ret = 0 \/ n = cfg.nreads THEN "clrC" ELSE "read"
 A_Read == /\ Ready("A", "read") /\ Step("A")
           /\ IF OQReadPred(oq)
                THEN LET ret == OQReadRet(oq) IN
                     /\ oq' = OQRead(oq)
-                    /\ blk' = Notify(blk, {"oqg"})
+                    /\ Sync("A", {"oqg"}, "")
                     /\ IF cfg.post
                          THEN /\ aret' = ret /\ Goto("A", "afterRead")
                               /\ UNCHANGED <<nread, delivered, freed>>
@@ -144,29 +151,29 @@ A_AfterRead == /\ Ready("A", "afterRead") /\ Step("A")
                /\ Goto("A", AfterRead(aret, nread + 1))
                /\ freed' = IF aret = 0 THEN freed ELSE freed \cup {aret}
                /\ aret' = -1
-               /\ UNCHANGED <<uf, oq, Flags, cfOpen, CVars, Stats, blk, UVars, stale>>
+               /\ UNCHANGED <<uf, oq, Flags, cfOpen, CVars, Stats, blk, wk, UVars, stale>>
 (* close(), read mode *)
 A_ClrC == /\ Ready("A", "clrC") /\ Step("A")
           /\ cRun' = FALSE /\ cfOpen' = FALSE          \* flag store, then m_compressedFile.close()
           /\ Goto("A", "clrU")
-          /\ UNCHANGED <<uf, oq, uRun, CVars, Stats, blk, UVars, AVars, stale>>
+          /\ UNCHANGED <<uf, oq, uRun, CVars, Stats, blk, wk, UVars, AVars, stale>>
 A_ClrU == /\ Ready("A", "clrU") /\ Step("A")
           /\ uRun' = FALSE /\ Goto("A", "abortUF")
-          /\ UNCHANGED <<uf, oq, cRun, cfOpen, CVars, Stats, blk, UVars, AVars, stale>>
+          /\ UNCHANGED <<uf, oq, cRun, cfOpen, CVars, Stats, blk, wk, UVars, AVars, stale>>
 A_AbortUF == /\ Ready("A", "abortUF") /\ Step("A")
-             /\ uf' = UFAbort(uf) /\ blk' = Notify(blk, {"ufg", "ufp"})
+             /\ uf' = UFAbort(uf) /\ Sync("A", {"ufg", "ufp"}, "")
              /\ Goto("A", "abortOQ")
              /\ UNCHANGED <<oq, Flags, cfOpen, CVars, Stats, UVars, AVars, stale>>
 A_AbortOQ == /\ Ready("A", "abortOQ") /\ Step("A")
-             /\ oq' = OQAbort(oq) /\ blk' = Notify(blk, {"oqg", "oqp"})
+             /\ oq' = OQAbort(oq) /\ Sync("A", {"oqg", "oqp"}, "")
              /\ Goto("A", IF cfg.post THEN "afterAbort" ELSE "joinC")
              /\ UNCHANGED <<uf, Flags, cfOpen, CVars, Stats, UVars, AVars, stale>>
 A_AfterAbort == /\ Ready("A", "afterAbort") /\ Step("A") /\ Goto("A", "joinC")
-                /\ UNCHANGED <<uf, oq, Flags, cfOpen, CVars, Stats, blk, UVars, AVars, stale>>
+                /\ UNCHANGED <<uf, oq, Flags, cfOpen, CVars, Stats, blk, wk, UVars, AVars, stale>>
 A_JoinC == /\ Ready("A", "joinC") /\ pc["C"] = "done" /\ Step("A") /\ Goto("A", "joinU")
-           /\ UNCHANGED <<uf, oq, Flags, cfOpen, CVars, Stats, blk, UVars, AVars, stale>>
+           /\ UNCHANGED <<uf, oq, Flags, cfOpen, CVars, Stats, blk, wk, UVars, AVars, stale>>
 A_JoinU == /\ Ready("A", "joinU") /\ pc["U"] = "done" /\ Step("A") /\ Goto("A", "done")
-           /\ UNCHANGED <<uf, oq, Flags, cfOpen, CVars, Stats, blk, UVars, AVars, stale>>
+           /\ UNCHANGED <<uf, oq, Flags, cfOpen, CVars, Stats, blk, wk, UVars, AVars, stale>>
 
 ANext == A_Start \/ A_SetU \/ A_SetC \/ A_Read \/ A_AfterRead \/ A_ClrC \/ A_ClrU
          \/ A_AbortUF \/ A_AbortOQ \/ A_AfterAbort \/ A_JoinC \/ A_JoinU
@@ -180,17 +187,19 @@ UKeep == UNCHANGED <<oq, Flags, cfOpen, CVars, Stats, AVars, stale>>    \* typic
 UReadOr(n, Cont(_)) ==
   IF UFReadPred(uf, n)
     THEN /\ uf' = UFRead(uf, n)
-         /\ blk' = Notify(blk, {"ufg"})
+         /\ Sync("U", {"ufg"}, "")
          /\ Cont(uf')
-    ELSE /\ Block("U", "ufp")
-         /\ UNCHANGED <<uf, pc, UVars>>
+    ELSE /\ IF "U" \notin wk
+              THEN uf' = UFDemand(uf, n) /\ Sync("U", {"ufg"}, "ufp")     \* first evaluation: publish demand
+              ELSE uf' = uf /\ Sync("U", {}, "ufp")                       \* re-evaluation inside wait()
+         /\ UNCHANGED <<pc, UVars>>
 
 U_Start == /\ Ready("U", "start") /\ Step("U") /\ Goto("U", "load")
-           /\ UNCHANGED <<uf, oq, Flags, cfOpen, CVars, Stats, blk, UVars, AVars, stale>>
+           /\ UNCHANGED <<uf, oq, Flags, cfOpen, CVars, Stats, blk, wk, UVars, AVars, stale>>
 U_Load == /\ Ready("U", "load") /\ Step("U")
           /\ IF uRun THEN Goto("U", "scan") /\ tmp4' = <<"x", "x", "x", "x">>     \* fresh ohb, tmp = 0
                      ELSE Goto("U", "tellp") /\ UNCHANGED tmp4
-          /\ UNCHANGED <<uf, oq, Flags, cfOpen, CVars, Stats, blk, d, opi, fix, utmp, AVars, stale>>
+          /\ UNCHANGED <<uf, oq, Flags, cfOpen, CVars, Stats, blk, wk, d, opi, fix, utmp, AVars, stale>>
 (* ObjectHeaderBase::read — signature scan *)
 Overlay(t4, g0, k) == [i \in 1..4 |-> IF i <= k THEN ClsAt(g0 + i - 1) ELSE t4[i]]
 U_Scan == /\ Ready("U", "scan") /\ Step("U")
@@ -206,9 +215,9 @@ ScanBack(t4) == IF <<t4[2], t4[3], t4[4]>> = <<"L", "O", "B">> THEN 3
 U_ScanEof == /\ Ready("U", "scaneof") /\ Step("U")          \* is.eof()
              /\ Goto("U", IF UFEof(uf) THEN "clrexc"         \* throw Exception("End of File")
                           ELSE IF ScanBack(tmp4) > 0 THEN "scanback" ELSE "scan")
-             /\ UNCHANGED <<uf, blk, UVars>> /\ UKeep
+             /\ UNCHANGED <<uf, blk, wk, UVars>> /\ UKeep
 U_ScanBack == /\ Ready("U", "scanback") /\ Step("U")
-              /\ uf' = UFSeekg(uf, -ScanBack(tmp4)) /\ blk' = Notify(blk, {"ufg"})
+              /\ uf' = UFSeekg(uf, -ScanBack(tmp4)) /\ Sync("U", {"ufg"}, "")
               /\ Goto("U", "scan")
               /\ UNCHANGED UVars /\ UKeep
 (* the four remaining header fields: headerSize(2) headerVersion(2) objectSize(4) objectType(4) *)
@@ -219,11 +228,16 @@ U_H1 == UHdr("h1", 2, "h2")
 U_H2 == UHdr("h2", 2, "h3")
 U_H3 == UHdr("h3", 4, "h4")
 U_H4 == UHdr("h4", 4, "good1")
+(* !good(): normal end of file, return.  objectSize below the base header size: the library's
+   exception ends the thread (fix of F4).  Otherwise seek back to the object start. *)
 U_Good1 == /\ Ready("U", "good1") /\ Step("U")
-           /\ Goto("U", IF UFGood(uf) THEN "back16" ELSE "goodchk")     \* normal eof: return
-           /\ UNCHANGED <<uf, blk, UVars>> /\ UKeep
+           /\ LET i == DescAt(uf.g - 16) IN
+              Goto("U", IF ~UFGood(uf) THEN "goodchk"
+                        ELSE IF i # 0 /\ Desc(i).osz < 16 THEN "clrexc"
+                        ELSE "back16")
+           /\ UNCHANGED <<uf, blk, wk, UVars>> /\ UKeep
 U_Back16 == /\ Ready("U", "back16") /\ Step("U")
-            /\ uf' = UFSeekg(uf, -16) /\ blk' = Notify(blk, {"ufg"})
+            /\ uf' = UFSeekg(uf, -16) /\ Sync("U", {"ufg"}, "")
             /\ LET i == DescAt(uf'.g) IN
                  /\ d' = i
                  /\ IF i = 0 \/ ~Desc(i).known
@@ -234,7 +248,7 @@ U_Back16 == /\ Ready("U", "back16") /\ Step("U")
             /\ UNCHANGED <<tmp4, utmp>> /\ UKeep
 (* unknown object type: seekg(ohb.objectSize) from the object start, return *)
 U_Skip == /\ Ready("U", "skip") /\ Step("U")
-          /\ uf' = UFSeekg(uf, IF d = 0 THEN 0 ELSE Desc(d).osz) /\ blk' = Notify(blk, {"ufg"})
+          /\ uf' = UFSeekg(uf, IF d = 0 THEN 0 ELSE Desc(d).osz) /\ Sync("U", {"ufg"}, "")
           /\ Goto("U", "goodchk")
           /\ UNCHANGED UVars /\ UKeep
 (* obj->read(m_uncompressedFile): the codec's operations *)
@@ -243,24 +257,24 @@ U_Op == /\ Ready("U", "op") /\ Step("U")
         /\ LET o == Desc(d).ops[opi] IN
            CASE o[1] = "r" -> UReadOr(o[2], LAMBDA u2 :
                                  /\ opi' = opi + 1 /\ Goto("U", NextOp) /\ UNCHANGED <<tmp4, d, fix, utmp>>)
-             [] o[1] = "s" -> /\ uf' = UFSeekg(uf, o[2]) /\ blk' = Notify(blk, {"ufg"})
+             [] o[1] = "s" -> /\ uf' = UFSeekg(uf, o[2]) /\ Sync("U", {"ufg"}, "")
                               /\ opi' = opi + 1 /\ Goto("U", NextOp) /\ UNCHANGED <<tmp4, d, fix, utmp>>
              [] OTHER      -> /\ opi' = opi + 1 /\ Goto("U", NextOp)          \* observer call
-                              /\ UNCHANGED <<uf, blk, tmp4, d, fix, utmp>>
+                              /\ UNCHANGED <<uf, blk, wk, tmp4, d, fix, utmp>>
         /\ UKeep
 U_Good2 == /\ Ready("U", "good2") /\ Step("U")
            /\ Goto("U", IF ~UFGood(uf) THEN "clrexc"          \* delete obj; throw "Read beyond end of file"
                         ELSE IF fix # 0 THEN "fix" ELSE "push")
-           /\ UNCHANGED <<uf, blk, UVars>> /\ UKeep
+           /\ UNCHANGED <<uf, blk, wk, UVars>> /\ UKeep
 U_Fix == /\ Ready("U", "fix") /\ Step("U")
-         /\ uf' = UFSeekg(uf, fix) /\ blk' = Notify(blk, {"ufg"})
+         /\ uf' = UFSeekg(uf, fix) /\ Sync("U", {"ufg"}, "")
          /\ Goto("U", "push")
          /\ UNCHANGED UVars /\ UKeep
 AfterPush == IF Desc(d).t115 THEN "drop" ELSE "count"
 U_Push == /\ Ready("U", "push") /\ Step("U")
           /\ IF OQWritePred(oq)
                THEN /\ oq' = OQWrite(oq, Desc(d).id)
-                    /\ blk' = Notify(blk, {"oqp"})
+                    /\ Sync("U", {"oqp"}, "")
                     /\ IF cfg.post THEN Goto("U", "afterPush") /\ UNCHANGED stale
                        ELSE /\ Goto("U", AfterPush)
                             /\ stale' = (stale \/ (cfg.touch = "after" /\ Desc(d).id \in freed))
@@ -272,32 +286,32 @@ U_Push == /\ Ready("U", "push") /\ Step("U")
 U_AfterPush == /\ Ready("U", "afterPush") /\ Step("U")
                /\ stale' = (stale \/ (cfg.touch = "after" /\ Desc(d).id \in freed))
                /\ Goto("U", AfterPush)
-               /\ UNCHANGED <<uf, oq, Flags, cfOpen, CVars, Stats, blk, UVars, AVars>>
+               /\ UNCHANGED <<uf, oq, Flags, cfOpen, CVars, Stats, blk, wk, UVars, AVars>>
 U_Count == /\ Ready("U", "count") /\ Step("U")
            /\ objCount' = objCount + 1 /\ Goto("U", "drop")
-           /\ UNCHANGED <<uf, oq, Flags, cfOpen, CVars, uncSize, blk, UVars, AVars, stale>>
+           /\ UNCHANGED <<uf, oq, Flags, cfOpen, CVars, uncSize, blk, wk, UVars, AVars, stale>>
 U_Drop == /\ Ready("U", "drop") /\ Step("U")
           /\ uf' = UFDrop(uf) /\ Goto("U", "goodchk")
-          /\ UNCHANGED <<blk, UVars>> /\ UKeep
+          /\ UNCHANGED <<blk, wk, UVars>> /\ UKeep
 U_GoodChk == /\ Ready("U", "goodchk") /\ Step("U")
              /\ Goto("U", IF UFGood(uf) THEN "load" ELSE "clrbad")
-             /\ UNCHANGED <<uf, blk, UVars>> /\ UKeep
+             /\ UNCHANGED <<uf, blk, wk, UVars>> /\ UKeep
 U_ClrExc == /\ Ready("U", "clrexc") /\ Step("U")
             /\ uRun' = FALSE /\ Goto("U", "goodchk")
-            /\ UNCHANGED <<uf, oq, cRun, cfOpen, CVars, Stats, blk, UVars, AVars, stale>>
+            /\ UNCHANGED <<uf, oq, cRun, cfOpen, CVars, Stats, blk, wk, UVars, AVars, stale>>
 U_ClrBad == /\ Ready("U", "clrbad") /\ Step("U")
             /\ uRun' = FALSE /\ Goto("U", "load")
-            /\ UNCHANGED <<uf, oq, cRun, cfOpen, CVars, Stats, blk, UVars, AVars, stale>>
+            /\ UNCHANGED <<uf, oq, cRun, cfOpen, CVars, Stats, blk, wk, UVars, AVars, stale>>
 (* after the loop: m_readWriteQueue.setFileSize(m_readWriteQueue.tellp()) *)
 U_Tellp == /\ Ready("U", "tellp") /\ Step("U")
            /\ utmp' = oq.p /\ Goto("U", "setend")
-           /\ UNCHANGED <<uf, oq, Flags, cfOpen, CVars, Stats, blk, tmp4, d, opi, fix, AVars, stale>>
+           /\ UNCHANGED <<uf, oq, Flags, cfOpen, CVars, Stats, blk, wk, tmp4, d, opi, fix, AVars, stale>>
 U_SetEnd == /\ Ready("U", "setend") /\ Step("U")
-            /\ oq' = OQSetEnd(oq, utmp) /\ blk' = Notify(blk, {"oqp"})
+            /\ oq' = OQSetEnd(oq, utmp) /\ Sync("U", {"oqp"}, "")
             /\ Goto("U", IF cfg.post THEN "afterEnd" ELSE "done")
             /\ UNCHANGED <<uf, Flags, cfOpen, CVars, Stats, UVars, AVars, stale>>
 U_AfterEnd == /\ Ready("U", "afterEnd") /\ Step("U") /\ Goto("U", "done")
-              /\ UNCHANGED <<uf, oq, Flags, cfOpen, CVars, Stats, blk, UVars, AVars, stale>>
+              /\ UNCHANGED <<uf, oq, Flags, cfOpen, CVars, Stats, blk, wk, UVars, AVars, stale>>
 
 UNext == U_Start \/ U_Load \/ U_Scan \/ U_ScanEof \/ U_ScanBack \/ U_H1 \/ U_H2 \/ U_H3 \/ U_H4
          \/ U_Good1 \/ U_Back16 \/ U_Skip \/ U_Op \/ U_Good2 \/ U_Fix \/ U_Push \/ U_AfterPush
@@ -308,7 +322,7 @@ UNext == U_Start \/ U_Load \/ U_Scan \/ U_ScanEof \/ U_ScanBack \/ U_H1 \/ U_H2 
 (* ------------------------------------------------------------------ *)
 NConts == Len(cfg.conts)
 C_Start == /\ Ready("C", "start") /\ Step("C") /\ Goto("C", "load")
-           /\ UNCHANGED <<uf, oq, Flags, cfOpen, CVars, Stats, blk, UVars, AVars, stale>>
+           /\ UNCHANGED <<uf, oq, Flags, cfOpen, CVars, Stats, blk, wk, UVars, AVars, stale>>
 (* while (running) { compressedFile2UncompressedFile(): parse one container from the fstream ... *)
 C_Load == /\ Ready("C", "load") /\ Step("C")
           /\ IF ~cRun
@@ -328,27 +342,27 @@ C_Load == /\ Ready("C", "load") /\ Step("C")
                            ELSE IF cfg.tail = "junk"
                              THEN cfBad' = cfBad /\ Goto("C", "clrexc")       \* "not a log container"
                              ELSE cfBad' = cfBad /\ Goto("C", "done")         \* foreign exception: outer catch
-          /\ UNCHANGED <<uf, oq, Flags, cfOpen, ctmp, objCount, blk, UVars, AVars, stale>>
+          /\ UNCHANGED <<uf, oq, Flags, cfOpen, ctmp, objCount, blk, wk, UVars, AVars, stale>>
 (* ... m_uncompressedFile.write(logContainer) } ; then the !good() check of the loop *)
 C_Put == /\ Ready("C", "put") /\ Step("C")
          /\ IF UFWriteCPred(uf)
               THEN /\ uf' = UFWriteC(uf, cur)
-                   /\ blk' = Notify(blk, {"ufp"})
+                   /\ Sync("C", {"ufp"}, "")
                    /\ Goto("C", IF cfBad THEN "clrbad" ELSE "load")
               ELSE /\ Block("C", "ufg")
                    /\ UNCHANGED <<uf, pc>>
          /\ UNCHANGED <<oq, Flags, cfOpen, CVars, Stats, UVars, AVars, stale>>
 C_ClrExc == /\ Ready("C", "clrexc") /\ Step("C")
             /\ cRun' = FALSE /\ Goto("C", IF cfBad THEN "clrbad" ELSE "load")
-            /\ UNCHANGED <<uf, oq, uRun, cfOpen, CVars, Stats, blk, UVars, AVars, stale>>
+            /\ UNCHANGED <<uf, oq, uRun, cfOpen, CVars, Stats, blk, wk, UVars, AVars, stale>>
 C_ClrBad == /\ Ready("C", "clrbad") /\ Step("C")
             /\ cRun' = FALSE /\ Goto("C", "load")
-            /\ UNCHANGED <<uf, oq, uRun, cfOpen, CVars, Stats, blk, UVars, AVars, stale>>
+            /\ UNCHANGED <<uf, oq, uRun, cfOpen, CVars, Stats, blk, wk, UVars, AVars, stale>>
 C_Tellp == /\ Ready("C", "tellp") /\ Step("C")
            /\ ctmp' = UFTellp(uf) /\ Goto("C", "setend")
-           /\ UNCHANGED <<uf, oq, Flags, cfOpen, ci, cur, cfBad, Stats, blk, UVars, AVars, stale>>
+           /\ UNCHANGED <<uf, oq, Flags, cfOpen, ci, cur, cfBad, Stats, blk, wk, UVars, AVars, stale>>
 C_SetEnd == /\ Ready("C", "setend") /\ Step("C")
-            /\ uf' = UFSetEnd(uf, ctmp) /\ blk' = Notify(blk, {"ufp"})
+            /\ uf' = UFSetEnd(uf, ctmp) /\ Sync("C", {"ufp"}, "")
             /\ Goto("C", "done")
             /\ UNCHANGED <<oq, Flags, cfOpen, CVars, Stats, UVars, AVars, stale>>
 
@@ -416,7 +430,7 @@ St(t) == IF pc[t] = "none" THEN "none"
          ELSE IF t = "A" /\ pc[t] = "joinU" /\ pc["U"] # "done" THEN "join"
          ELSE "run"
 Proj == [uf |-> [abort |-> uf.abort, g |-> uf.g, p |-> uf.p, gc |-> uf.gc, end |-> uf.end,
-                 good |-> UFGood(uf),
+                 good |-> UFGood(uf), dem |-> uf.dem,
                  data |-> [i \in 1..Len(uf.data) |-> <<uf.data[i].pos, uf.data[i].size>>]],
          oq |-> [abort |-> oq.abort, g |-> oq.g, p |-> oq.p, end |-> oq.end, good |-> OQGood(oq),
                  q |-> oq.q],
